@@ -6,7 +6,8 @@ Each generated function comes as
   * the S-expression of cproc's TYPED TREE AFTER PARSING that `drv_c01 emit|eval` reads
     (syntax: see the head of lean/Drv/C01.lean).  The tree is computed by a Python transliteration of
     expr.c (`mkbinaryexpr`, `unaryexpr`, `condexpr`, `exprconvert`, `typepromote`, `typecommonreal`,
-    `inttype`) and of eval.c (the `eval()` that `condexpr` applies to the condition of `?:`,
+    `inttype`) and of eval.c (the `eval()` that `condexpr` applies to the condition of `?:` - a constant
+    condition selects its operand at parse time unless that operand is an lvalue -,
     including its operand swap for `+`), so that it is the tree `funcexpr` sees,
   * the function name,
   * a few argument tuples (C values, boundary values included) for `drv_c01 eval`.
@@ -310,7 +311,12 @@ def parse(e, ptys):
         l, r = conv(l, t), conv(r, t)
         c = ceval(c)
         if c[0] == 'c':
-            return conv(l if c[2] != 0 else r, t)
+            # constant condition: the selected operand itself - unless it is an lvalue (an identifier of exactly
+            # the result type; a cast is not an lvalue): then the EXPRCOND node is built, with the folded
+            # constant as its condition (expr.c condexpr: "the result of a conditional expression is not an lvalue")
+            sel = conv(l if c[2] != 0 else r, t)
+            if sel[0] != 'p':
+                return sel
         return ('cond', t, c, l, r)
     raise ValueError(k)
 
